@@ -130,6 +130,46 @@ func suiteStrings(rn *runner, r *rng, tier string) {
 		rn.rep.Distribution[cls]++
 		rn.seen[cls] = true
 	}
+	// a caller that reads every message into the same buffer and reuses the ParsedJson: same address, same length,
+	// different strings near the end of the input (the region the parser pads for the string kernel)
+	for k := 0; k < 12; k++ {
+		cr := r.fork()
+		var carry *simdjson.ParsedJson
+		words := []string{"alpha", "omega", "gamma", "delta", "a\\\"b\\n", "\\u00e9\\u00e8x", "zzzzz", "     "}
+		tail := strings.Repeat(" ", cr.intn(70))
+		for round := 0; round < 4; round++ {
+			w := words[cr.intn(len(words))]
+			if len(w) != 5 && round > 0 { // keep the length: escapes change it, plain words do not
+				w = words[cr.intn(4)]
+			}
+			if round == 0 {
+				w = words[cr.intn(4)]
+			}
+			var text string
+			switch k % 3 {
+			case 0:
+				text = "{\"K\":\"" + w + "\"" + tail + "}"
+			case 1:
+				text = "[1,2,\"" + w + "\"" + tail + "]"
+			default:
+				text = "{\"" + w + "\":" + tail + "1}"
+			}
+			tc := valueCase(cr, text, false, "inplace-reuse")
+			reuse := carry
+			rn.addWith(tc, func() {
+				nextParse.inplace = true
+				nextParse.reuse = reuse
+			})
+			nextParse = parseOpts{}
+			if pj := lastStore.pjs["p"]; pj != nil {
+				h := *pj
+				carry = &h
+			}
+			cls := fmt.Sprintf("inplace-reuse/%s/round=%d", outcomeOf(tc.impl[0]), round)
+			rn.rep.Distribution[cls]++
+			rn.seen[cls] = true
+		}
+	}
 	// boundaries of the UTF-8 length classes and of the surrogate range, both hex cases, in every run
 	for _, cu := range []int{0, 1, 0x1f, 0x20, 0x22, 0x5c, 0x7e, 0x7f, 0x80, 0x81, 0xff, 0x100, 0x7fe, 0x7ff, 0x800, 0x801, 0xfff, 0x1000,
 		0xd7fe, 0xd7ff, 0xe000, 0xe001, 0xfffd, 0xfffe, 0xffff} {
